@@ -1,6 +1,7 @@
 package checks
 
 import (
+	"strings"
 	"bytes"
 	"encoding/json"
 	"fmt"
@@ -27,6 +28,8 @@ type c15Case struct {
 	N     int
 	Min   *int `json:",omitempty"`
 	Max   *int `json:",omitempty"`
+	Def   string `json:",omitempty"` // DefaultDiceSideExpr (faceless dice)
+	Pre   string `json:",omitempty"` // statements run once on the VM before (definitions the expression uses)
 }
 
 func c15Terms(maxX, maxY int, emit func(c c15Case)) {
@@ -106,6 +109,30 @@ func c15Enumerate(tier string, seed int64, emit func(string, any)) {
 			emit("compose", c15Case{Src: t1 + " * 3 + " + t2})
 		}
 	}
+	// the same dice inside every kind of sub-evaluation (each has its own VM configuration copy), defined in the same
+	// source or earlier on the VM (precompiled body), and faceless dice whose sides come from DefaultDiceSideExpr
+	for _, t := range []string{"2d3", "2d3k1", "3d2q2", "d4", "f", "b", "p1", "2d3min2"} {
+		for _, w := range []string{"&a = @; a", "&a = @; a + a", "func g(){ @ }; g()", "func g(){ @ }; g() + g()", "func g(n){ n + @ }; g(1)", "[@, @].sum()", "[@, 1] kh", "1 ? @ : 0", "x = @; x + x", "i = 0; s = 0; while i < 2 { i = i + 1; s = s + @ }; s", "{'k': @}.k"} {
+			emit("contexts", c15Case{Src: strings.ReplaceAll(w, "@", t)})
+		}
+		emit("contexts", c15Case{Pre: "&pa = " + t, Src: "pa + pa"})
+		emit("contexts", c15Case{Pre: "func pg(){ " + t + " }", Src: "pg() + pg()"})
+		emit("contexts", c15Case{Pre: "&pa = " + t + "; func pg(){ pa + 1 }", Src: "pg()"})
+	}
+	for _, t := range []string{"2d", "d", "3dk2", "2dq1", "2ddl1", "2dmin2", "2dmax2", "d + 2d", "func g(){ 2d }; g()", "&a = 2d; a + a"} {
+		for _, def := range []string{"3", "1+2", "4"} {
+			emit("faceless", c15Case{Src: t, Def: def})
+		}
+	}
+	// numbers of sides far beyond what can be enumerated: the faces 1, 2, Y-1, Y stand for all
+	for _, y := range []string{"65", "1000", "65536", "2147483646", "2147483647", "2147483648", "3000000000", "4294967296", "1099511627776", "4611686018427387904", "9223372036854775806"} {
+		for _, t := range []string{"d@", "2d@", "2d@k1", "2d@q1", "3d@dl1", "d@ + 1", "d@优势"} {
+			if len(y) > 13 && (strings.HasPrefix(t, "2d@") && len(t) == 3 || strings.HasPrefix(t, "3d")) {
+				continue // the sum of several such dice does not fit the integer type; wrap-around is not this property's subject
+			}
+			emit("big sides", c15Case{Src: strings.ReplaceAll(t, "@", y)})
+		}
+	}
 	for _, t := range []string{"b", "p", "b1", "p2", "b2"} {
 		emit("compose", c15Case{Src: t + " + 1"})
 		emit("compose", c15Case{Src: t + " * 3"})
@@ -126,15 +153,29 @@ func c15Run(raw json.RawMessage) harn.Result {
 		}
 	}
 	// all random outcomes
-	vm := drv.NewVM(drv.AllOn())
-	if err := vm.Parse(c.Src); err != nil {
-		viol("MACHINERY:generator", "rejected: "+err.Error())
-		return res
-	}
+	base := drv.AllOn()
+	base.DefExpr = c.Def
 	var cur *choice.Ctx
 	ds.VerifStepHook = nil
 	ds.VerifRollHook = func(src *rand.PCGSource, sides ds.IntType) (ds.IntType, bool) {
+		if cur == nil {
+			return 1, true
+		}
+		if sides > 64 {
+			reps := []ds.IntType{1, 2, sides - 1, sides}
+			return reps[cur.Choose(4)], true
+		}
 		return ds.IntType(cur.Choose(int(sides)) + 1), true
+	}
+	vm := drv.NewVM(base)
+	if c.Pre != "" {
+		if err := vm.Run(c.Pre); err != nil {
+			panic(err)
+		}
+	}
+	if err := vm.Parse(c.Src); err != nil {
+		viol("MACHINERY:generator", "rejected: "+err.Error())
+		return res
 	}
 	outcomes := map[int]bool{}
 	lo, hi := 0, 0
@@ -176,10 +217,15 @@ func c15Run(raw json.RawMessage) harn.Result {
 	}
 	defer func() { ds.VerifRollHook = nil }()
 	mode := func(min bool) (int, bool) {
-		cfg := drv.AllOn()
+		cfg := base
 		cfg.Min, cfg.Max = min, !min
 		cfg.Seed = 7
 		m := drv.NewVM(cfg)
+		if c.Pre != "" {
+			if err := m.Run(c.Pre); err != nil {
+				panic(err)
+			}
+		}
 		before, _ := m.GetCurSeed()
 		rolls = 0
 		if err := m.Run(c.Src); err != nil {
